@@ -14,7 +14,7 @@ from vlib import repo as vrepo
 from vlib.runner import Sub, norm_message, par_map
 
 import cutplace
-from cutplace import applications, errors
+from cutplace import applications, errors, interface
 
 PROPERTY_ID = "C18"
 RULE = (
@@ -54,25 +54,31 @@ EXHAUSTIVE_SCOPE = (
 KINDS = ("A", "F", "U", "S", "E", "Z", "M", "D", "T")
 UNREADABLE_KINDS = ("M", "D", "T")
 UNTILS = ("absent", "-1", "0", "3", "4")
-SUFFIX = {"delimited": ".csv", "ods": ".ods", "excel": ".xlsx"}
+SUFFIX = {"delimited": ".csv", "ods": ".ods", "excel": ".xlsx", "fixed": ".txt"}
+FIXED_WIDTH = 4
 # (cid container, cid state, data format)
 VARIANTS = [
     ("csv", "valid", "delimited"), ("csv", "rejected", "delimited"), ("csv", "missing", "delimited"),
     ("csv", "directory", "delimited"), ("ods", "valid", "delimited"), ("ods", "missing", "delimited"),
     ("xlsx", "valid", "delimited"), ("xlsx", "missing", "delimited"),
     ("ods", "rejected", "delimited"), ("xlsx", "rejected", "delimited"),
-    ("csv", "valid", "ods"), ("csv", "valid", "excel"),
+    ("csv", "valid", "ods"), ("csv", "valid", "excel"), ("csv", "valid", "fixed"),
+    # a valid CSV CID behind a byte order mark (what some editors and spreadsheet exports put in front): whether that
+    # is a CID that loads is for the programmatic API to say, the command line follows it
+    ("csv", "bom", "delimited"),
 ]
 HEADER_ROW = ["id", "name"]
 
 
 # -- files (built without cutplace) -----------------------------------------------------
 def cid_table(fmt, rejected=False, lenient=False):
-    rows = [["D", "Format", {"delimited": "Delimited", "ods": "ODS", "excel": "Excel"}[fmt]], ["D", "Header", "1"]]
-    if fmt == "delimited":
+    rows = [["D", "Format", {"delimited": "Delimited", "ods": "ODS", "excel": "Excel", "fixed": "Fixed"}[fmt]],
+            ["D", "Header", "1"]]
+    if fmt in ("delimited", "fixed"):
         rows.append(["D", "Encoding", "utf-8"])
-    rows.append(["F", "id", "", "", "", "Integer", "0...9999"])
-    rows.append(["F", "id" if rejected else "name", "", "", "", "Text", ""])
+    length = str(FIXED_WIDTH) if fmt == "fixed" else ""
+    rows.append(["F", "id", "", "", length, "Integer", "0...9999"])
+    rows.append(["F", "id" if rejected else "name", "", "", length, "Text", ""])
     if not rejected:
         rows.append(["C", "id must be unique", "IsUnique", "id"])
         # at most 4 names; for exactly 5 the rule cannot be evaluated (an error of the CID that only data bring out)
@@ -122,6 +128,10 @@ def write_table(path, table):
         enc_ods.write(path, [table])
     elif path.endswith(".xlsx"):
         enc_xlsx.write_text_table(path, table)
+    elif path.endswith(".txt"):
+        with open(path, "w", encoding="utf-8", newline="") as f:
+            for row in table:
+                f.write("".join(cell.ljust(FIXED_WIDTH) for cell in row) + "\n")
     else:
         with open(path, "w", encoding="utf-8", newline="") as f:
             csv.writer(f, lineterminator="\n").writerows(table)
@@ -165,9 +175,25 @@ class Files(object):
             self._made.add(name)
             if state in ("valid", "rejected"):
                 write_table(path, cid_table(fmt, state == "rejected", lenient=container != "csv"))
+            elif state == "bom":
+                write_table(path, cid_table(fmt))
+                with open(path, "rb") as f:
+                    content = f.read()
+                with open(path, "wb") as f:
+                    f.write(b"\xef\xbb\xbf" + content)
             elif state == "directory":
                 os.mkdir(path)
         return path
+
+    def judged_state(self, state, path):
+        """'valid' or 'rejected' for a CID file whose fate the programmatic API decides; other states as they are."""
+        if state != "bom":
+            return state
+        try:
+            interface.Cid(path)
+            return "valid"
+        except errors.InterfaceError:
+            return "rejected"
 
     def data_path(self, kind, k, fmt):
         name = NAMINGS[self.naming].format(kind=kind, k=k, suffix=SUFFIX[fmt])
@@ -319,7 +345,11 @@ def check_multiset(sub, files, variant, multiset, classes, only=None):
     evals = nontrivial = 0
     # the file format that can matter for the outcome goes last: the CID's container while the CID does not load,
     # the data format otherwise
+    written_state, cid_state = cid_state, files.judged_state(cid_state, cid_path)
     where = "data-%s" % fmt if cid_state == "valid" else "cid-%s" % container
+    if written_state != cid_state:
+        where += "-" + written_state
+        classes["cid:%s-judged-%s-by-api" % (written_state, cid_state)] = 1
     for until in UNTILS:
         occurrence = {}
         verdicts = []
@@ -334,7 +364,7 @@ def check_multiset(sub, files, variant, multiset, classes, only=None):
         expected, what = expectation(cid_state, shown)
         results = []
         for order in orders:
-            case = {"cid": [container, cid_state], "fmt": fmt, "files": list(order), "until": until,
+            case = {"cid": [container, written_state], "fmt": fmt, "files": list(order), "until": until,
                     "naming": files.naming}
             if only is not None and not only(case):
                 continue
